@@ -57,6 +57,7 @@ pub fn pp1(
     let mut factors = vec![];
     let start1 = std::time::Instant::now();
     let (b2real, d1, d2) = params::stage2_params(b2);
+    #[cfg(yamaquasi_verif)] crate::verif::ev(|| format!("\"op\":\"s2_hdr\",\"m\":\"pp1\",\"b1\":{},\"b2\":{},\"b2rep\":{},\"d1\":{},\"d2\":{}", b1, b2 as u64, b2real as u64, d1, d2));
     if verbosity >= Verbosity::Info {
         eprintln!("Attempting P+1 with B1={b1} B2={b2real:e}");
     }
@@ -152,6 +153,7 @@ pub fn pp1(
         let mut b = g;
         let mut bprev = g;
         v.push(g.clone());
+        #[cfg(yamaquasi_verif)] crate::verif::ev(|| format!("\"op\":\"s2_b\",\"m\":\"pp1\",\"e\":{}", 1));
         let mut exp = 1;
         debug_assert!(b == chebyshev_modn(&zn, &g, exp));
         while exp + 2 < d1 / 2 {
@@ -159,6 +161,7 @@ pub fn pp1(
             (bprev, b) = (b, zn.sub(&zn.mul(&b, &g2), &bprev));
             if exp % 3 != 0 && Integer::gcd(&exp, &d1) == 1 {
                 v.push(b);
+                #[cfg(yamaquasi_verif)] crate::verif::ev(|| format!("\"op\":\"s2_b\",\"m\":\"pp1\",\"e\":{}", exp));
             }
         }
         debug_assert!(b == chebyshev_modn(&zn, &g, exp));
@@ -172,10 +175,13 @@ pub fn pp1(
         let mut dg = chebyshev_modn(&zn, &g, d1);
         let step = dg;
         steps.push(two);
+        #[cfg(yamaquasi_verif)] crate::verif::ev(|| format!("\"op\":\"s2_g\",\"m\":\"pp1\",\"k\":{}", steps.len() - 1));
         steps.push(dg);
+        #[cfg(yamaquasi_verif)] crate::verif::ev(|| format!("\"op\":\"s2_g\",\"m\":\"pp1\",\"k\":{}", steps.len() - 1));
         for _ in 2..=d2 {
             let dgnext = zn.sub(&zn.mul(&dg, &step), &dgprev);
             steps.push(dgnext);
+            #[cfg(yamaquasi_verif)] crate::verif::ev(|| format!("\"op\":\"s2_g\",\"m\":\"pp1\",\"k\":{}", steps.len() - 1));
             (dgprev, dg) = (dg, dgnext);
         }
         steps
@@ -324,4 +330,14 @@ fn test_chebyshev_modn() {
     // Order of g is not p-1
     let gk = chebyshev_modn(&zn, &g, p - 1);
     assert!(gk != zn.from_int(Uint::from_digit(2)));
+}
+
+/// Verification accessor for the private Lucas-sequence helper (cfg(yamaquasi_verif) only).
+#[cfg(yamaquasi_verif)]
+pub mod vhook {
+    use super::*;
+
+    pub fn chebyshev_modn(zn: &ZmodN, g: &MInt, exp: u64) -> MInt {
+        super::chebyshev_modn(zn, g, exp)
+    }
 }
